@@ -64,18 +64,64 @@ def showOutcome : Outcome → String
   | .resp st e => s!"{st} enq=" ++ (match e with | none => "-" | some p => hex p)
   | .panic site => s!"panic {site}"
 
+def pathNames (p : Bytes) : List Bytes := (splitOn 47 p).filter (fun x => !x.isEmpty)
+
+def parseFsEntry (s : String) : Option (List Bytes × Node) :=
+  match s.toList with
+  | 'd' :: r => do some (pathNames (← unhexAux r), .dir)
+  | 'f' :: r => do some (pathNames (← unhexAux r), .file)
+  | 'l' :: r =>
+    match (String.ofList r).splitOn "=" with
+    | [p, t] => do some (pathNames (← unhex p), .link (← unhex t))
+    | _ => none
+  | _ => none
+
+/-- Later entries for a path that already exists are dropped (creation fails in the real tree);
+    an entry whose parent is missing or not a directory is dropped too, except that `d` creates
+    missing parents (`create_dir_all`). -/
+def addEntry (acc : List (List Bytes × Node)) (e : List Bytes × Node) : List (List Bytes × Node) :=
+  if acc.any (·.1 == e.1) then acc else acc ++ [e]
+
+def parseFs (s : String) : Option Fs :=
+  if s.isEmpty then some ⟨[]⟩ else do
+    let es ← (s.splitOn ",").mapM parseFsEntry
+    some ⟨es.foldl addEntry []⟩
+
+def showCanon : CanonRes → String
+  | .ok p => hex (render p)
+  | .err => "!"
+  | .escaped => "escaped"
+  | .fuelOut => "fuel-out"
+
+def underRoot (q : Bytes) : Bool := q == 47 :: rootName || startsWith q (47 :: rootName ++ [47])
+
+/-- Is the model's `realpath` consistent with what the real `canonicalize` returned? -/
+def canonAgrees (m : CanonRes) (real : Option Bytes) : Bool :=
+  match m, real with
+  | .ok p, some q => render p == q
+  | .err, none => true
+  | .escaped, none => true
+  | .escaped, some q => !underRoot q
+  | _, _ => false
+
 def runCase (line : String) : String :=
   match line.splitOn "|" with
-  | ["v1", method, api, path, query, upd, rx, reply, table, _fs] =>
-    match unhex api, unhex path, unhexOpt query, unhexOpt upd, parseReply reply, parseTable table with
-    | some api, some path, some query, some upd, some reply, some table =>
+  | ["v1", method, api, path, query, upd, rx, reply, table, fs] =>
+    match unhex api, unhex path, unhexOpt query, unhexOpt upd, parseReply reply, parseTable table, parseFs fs with
+    | some api, some path, some query, some upd, some reply, some table, some fs =>
       let canon : Bytes → Option Bytes := fun k => (lookup table k).getD none
       match (canonQueries upd canon query).find? (fun k => (lookup table k).isNone) with
       | some k => s!"oracle-miss {hex k}"
       | none =>
-        let env : Env := { canon := canon, rxOpen := rx == "o", reply := reply }
-        showOutcome (processRequest api upd env (method == "GET") path query)
-    | _, _, _, _, _, _ => "bad-case"
+        match table.find? (fun e => !canonAgrees (canonFs fs e.1) e.2) with
+        | some e => s!"canon-mismatch {hex e.1} model={showCanon (canonFs fs e.1)} real=" ++
+            (match e.2 with | none => "!" | some q => hex q)
+        | none =>
+          let env : Env := { canon := canon, rxOpen := rx == "o", reply := reply }
+          let esc := (table.filter fun e => canonFs fs e.1 == .escaped).length
+          showOutcome (processRequest api upd env (method == "GET") path query)
+            ++ s!" ## canonFs agrees on {table.length} paths ({esc} escaped)"
+    | _, _, _, _, _, _, _ => "bad-case"
   | _ => "bad-case"
 
 partial def loop (h : IO.FS.Stream) (out : IO.FS.Stream) : IO Unit := do
